@@ -20,64 +20,64 @@ def add(pid, level, technique, text, note, ref, engine):
 
 add("C01", "exploration", "differential runtime monitor: SEVM end states vs independent concrete EVM on pinned path inputs",
     "Every path SEVM.run yields for generated programs is replayed on an independent concrete EVM for several concrete inputs admitted by the path (path models + random/boundary inputs); status, output, storage, balances, code and logs must agree. Held on the executions generated, not a proof.",
-    "trusts CPython, z3 (model evaluation), pysha3 keccak, and the from-scratch reference EVM in lib/refevm.py; gas is not modelled", "DESIGN.md §3 C01", "symrun+refevm+pathmodel")
+    "trusts CPython, z3 (model evaluation), pysha3 keccak, and the from-scratch reference EVM in lib/refevm.py; gas is not modelled", "DESIGN.md §3 and §11.2 C01", "symrun+refevm+pathmodel")
 add("C02", "exploration", "coverage monitor + independent re-solve of every pruned alternative recorded at Exec.check, with unknown-injection faults",
     "For generated programs every concrete input must be admitted by some yielded path unless a bound/err flag is raised; every unsat verdict that pruned an alternative is re-decided by an independent solver; solver 'unknown' is injected to show it never prunes; auxiliary axioms are falsification-tested.",
-    "trusts z3 for the independent re-solve (yices as second opinion where available), reference EVM for confirming a dropped behaviour", "DESIGN.md §3 C02", "symrun+refevm+pathmodel")
+    "trusts z3 for the independent re-solve (yices as second opinion where available), reference EVM for confirming a dropped behaviour", "DESIGN.md §3 and §11.2 C02", "symrun+refevm+pathmodel")
 add("C03", "exploration", "end-to-end differential: halmos verdict on generated test artifacts vs concrete replay of planted/boundary inputs on the reference EVM",
     "Generated forge-style artifacts are run through run_contract; a clean PASS is judged against concrete replays (planted solutions, boundary and random arguments) on the reference EVM with a Foundry cheatcode layer.",
-    "trusts the reference EVM/Foundry layer and hand-assembled artifacts (no solc offline)", "DESIGN.md §3 C03", "artifacts+refevm")
+    "trusts the reference EVM/Foundry layer and hand-assembled artifacts (no solc offline)", "DESIGN.md §3 and §11.2 C03", "artifacts+refevm")
 add("C04", "exploration", "counterexample replay monitor: valid models re-parsed from solver output and replayed concretely",
     "Every PotentialModel marked valid is compared with an independent parse of the solver's output file and replayed on the reference EVM; models whose final query still contains an arithmetic abstraction must be labelled invalid.",
-    "trusts the independent SMT-LIB model reader and the reference EVM", "DESIGN.md §3 C04", "artifacts+refevm")
+    "trusts the independent SMT-LIB model reader and the reference EVM", "DESIGN.md §3 and §11.2 C04", "artifacts+refevm")
 add("C05", "fault_enumeration", "fault enumeration with a scripted stub solver (reply x delay per query) against a verdict-precedence model",
     "Enumerates per-path outcome vectors crossed with scripted solver replies (sat, abstract sat, unsat, unknown, timeout, garbage, empty, non-zero exit, killed) and completion orders, with and without --early-exit/--cache-solver; TestResult/MainResult exit codes are compared with an independent precedence model.",
-    "trusts the 15-line precedence model taken from the property statement; real solver replaced by a stub executable", "DESIGN.md §3 C05", "artifacts+stubsolver")
+    "trusts the 15-line precedence model taken from the property statement; real solver replaced by a stub executable", "DESIGN.md §3 and §11.2 C05", "artifacts+stubsolver")
 add("C06", "exploration", "concrete differential over boundary/8-bit-exhaustive operand grids x operand representations, plus per-term SMT validity against an independent spec",
     "Every word-level operation of HalmosBitVec/HalmosBool and the SEVM opcode dispatch is evaluated on boundary grids and exhaustive 8-bit grids in all operand representations (int, term, Bool) and compared with yellow-paper definitions; symbolic results are discharged by SMT against independent specifications; totality/promptness by watchdog.",
-    "trusts z3 and the independently written reference semantics in lib/refevm.py / checks/c06.py", "DESIGN.md §3 C06", "bvspec")
+    "trusts z3 and the independently written reference semantics in lib/refevm.py / checks/c06.py", "DESIGN.md §3 and §11.2 C06", "bvspec")
 add("C07", "exploration", "reference-model monitor (flat cell array) + class invariant after every ByteVec operation; exhaustive short histories + guided random long ones",
     "Operation histories on ByteVec (exhaustive up to length 3 over a boundary grid, random up to 60) are mirrored on a flat byte-cell model; every read API is compared after every operation under random valuations of symbols, copies are re-read after later writes, and the chunk invariant is asserted (icontract) after every public method.",
-    "trusts the flat model in checks/c07.py; symbolic equality is decided by evaluation under random valuations (+ z3 on a sample)", "DESIGN.md §3 C07", "bytemodel")
+    "trusts the flat model in checks/c07.py; symbolic equality is decided by evaluation under random valuations (+ z3 on a sample)", "DESIGN.md §3 and §11.2 C07", "bytemodel")
 add("C08", "exploration", "differential storage monitor: generated location expressions over colliding key domains vs reference EVM with real keccak",
     "Programs of SSTORE/SLOAD/TSTORE/TLOAD over generated Solidity-layout location expressions with symbolic keys are run symbolically; for valuations from small colliding domains the loaded values must equal the reference EVM's, in both storage layouts, incl. transient storage over two transactions.",
-    "trusts reference EVM, pysha3 keccak, z3 model evaluation", "DESIGN.md §3 C08", "symrun+refevm+pathmodel")
+    "trusts reference EVM, pysha3 keccak, z3 model evaluation", "DESIGN.md §3 and §11.2 C08", "symrun+refevm+pathmodel")
 add("C09", "exploration", "differential call-tree monitor with conservation and static-context checks",
     "Generated call trees (all six frame kinds, every outcome) are run symbolically and on the reference EVM; flags, return data, storage, transient storage, balances and code after the tree must agree; balance conservation is checked.",
-    "as C01", "DESIGN.md §3 C09", "symrun+refevm+pathmodel")
+    "as C01", "DESIGN.md §3 and §11.2 C09", "symrun+refevm+pathmodel")
 add("C10", "exploration", "ground-truth-by-construction monitor: planted deep failures vs captured warnings / status",
     "Generated tests with loops whose trip count depends on inputs and planted failures behind k iterations; a clean PASS without loop/width/depth warning is judged against the reference EVM; concrete loops must never be cut; regular, setUp and invariant modes.",
-    "trusts reference EVM and the log capture of the 'halmos' logger", "DESIGN.md §3 C10", "artifacts+refevm")
+    "trusts reference EVM and the log capture of the 'halmos' logger", "DESIGN.md §3 and §11.2 C10", "artifacts+refevm")
 add("C11", "exploration", "SMT equivalence monitor: dumped query text re-parsed by z3 and compared with the live path conditions; refinement compared with exact definitions",
     "Every query written by halmos in the generated runs is re-parsed in a fresh z3 context and shown equivalent to the conjunction of the path's conditions (both directions unsat); refined queries must equal the conditions with abstractions replaced by exact EVM operations.",
-    "trusts z3's parser and solver", "DESIGN.md §3 C11", "artifacts+symrun")
+    "trusts z3's parser and solver", "DESIGN.md §3 and §11.2 C11", "artifacts+symrun")
 add("C12", "exploration", "independent ABI decoder over generated type trees and every candidate size tuple",
     "mk_calldata output for generated signatures is decoded by an independent strict ABI decoder under every size tuple; leaves must be distinct unconstrained symbols; unsupported types must raise.",
-    "trusts the independent ABI codec in lib/abi.py and z3 model evaluation", "DESIGN.md §3 C12", "abi")
+    "trusts the independent ABI codec in lib/abi.py and z3 model evaluation", "DESIGN.md §3 and §11.2 C12", "abi")
 add("C13", "exploration", "selector-table audit + SMT validity of handler conditions vs per-signature spec + dynamic nested-call runs",
     "Each vm.assert* selector is matched to the forge-std signature hashing to it; the handler's condition is compared by SMT with the specification of that signature; vm.assume/assert programs at nesting depth 0-3 are compared with the reference Foundry model.",
-    "trusts the generated forge-std signature list, keccak, z3", "DESIGN.md §3 C13", "symrun+refevm")
+    "trusts the generated forge-std signature list, keccak, z3", "DESIGN.md §3 and §11.2 C13", "symrun+refevm")
 add("C14", "exploration", "history monitor: generated prank/cheatcode histories vs a Foundry reference model; SMT checks on fresh symbols",
-    "Bounded histories of prank-family calls, calls, creations and state cheatcodes are run symbolically and compared with a reference Foundry layer; created symbols are checked for width/encoding/range by SMT and for independence by variable-set disjointness.",
-    "only unambiguous Foundry semantics are judged", "DESIGN.md §3 C14", "symrun+refevm")
+    "Bounded histories of prank-family calls, calls, creations and state cheatcodes are run symbolically and compared with a reference Foundry layer; created symbols are checked for width/encoding/range by SMT and for pairwise independence by satisfiability of all corner combinations (across frames, forks and two transactions).",
+    "only unambiguous Foundry semantics are judged", "DESIGN.md §3 and §11.2 C14", "symrun+refevm")
 add("C15", "exploration", "brute-force call-sequence oracle on the reference EVM vs halmos invariant verdict; state-digest and filter monitors",
     "Generated stateful targets are brute-forced over bounded call sequences on the reference EVM; a breaking sequence must yield FAIL, every FAIL's call sequence must replay, state merging is checked with an independent serialisation and target/exclude filters against an independent resolution.",
-    "one-directional oracle; small argument domains", "DESIGN.md §3 C15", "artifacts+refevm")
+    "one-directional oracle; small argument domains", "DESIGN.md §3 and §11.2 C15", "artifacts+refevm")
 add("C16", "exploration", "online soundness monitor on check_unsat_cores (every cache hit re-solved) + cache on/off differential under gc pressure",
     "Every cache hit observed is re-decided by a real solver; verdicts and counterexample sets with the cache on and off must be equal, with garbage collection forced between paths.",
-    "trusts z3 for re-solving", "DESIGN.md §3 C16", "artifacts")
+    "trusts z3 for re-solving", "DESIGN.md §3 and §11.2 C16", "artifacts")
 add("C17", "exploration", "controlled-scheduler exploration of processes.py with simulated processes + real-subprocess stress",
     "Thread schedules (seeded random, PCT, bounded-preemption enumeration) over submit/exit/timeout/cancel/shutdown with simulated processes; exactly-once delivery, bounded return of result(), timeout never unsat, nothing alive after shutdown.",
-    "yield points are Python line events of processes.py; C-level interleavings only stressed", "DESIGN.md §3 C17", "sched")
+    "yield points are Python line events of processes.py; C-level interleavings only stressed", "DESIGN.md §3 and §11.2 C17", "sched")
 add("C18", "exploration", "reference-model monitor for config precedence + grammar-based round-trip fuzzing + scoping through real entry points",
     "Random layer stacks are resolved by Config and by a 10-line reference; structured values are round-tripped through unparse/parse; malformed strings must be rejected; annotations are checked for scope through run_contract.",
-    "trusts the reference resolver and recognisers written from the documentation", "DESIGN.md §3 C18", "cfgmodel")
+    "trusts the reference resolver and recognisers written from the documentation", "DESIGN.md §3 and §11.2 C18", "cfgmodel")
 add("C19", "exploration", "independent linear-sweep decoder vs Contract decode/jumpdest/slice; exhaustive over a class-preserving alphabet",
     "All byte strings up to length 4 (quick) / 6 (thorough) over a 10-byte alphabet covering every decoding class, random strings to 4 KiB and concrete/symbolic splits are decoded by Contract and by an independent decoder; jump programs run through SEVM vs the reference EVM.",
-    "trusts the independent decoder", "DESIGN.md §3 C19", "decoder")
+    "trusts the independent decoder", "DESIGN.md §3 and §11.2 C19", "decoder")
 add("C20", "exploration", "order/subset/repetition differential over run_contract + setUp-state immutability monitor + sibling-path re-execution",
     "Results of run_contract are compared across orders, subsets, duplicates, repetitions and uid seeds; the post-setUp state is serialised before/after each test; each yielded path is re-executed alone with its model as concrete input.",
-    "normalisation strips uid suffixes only", "DESIGN.md §3 C20", "artifacts+symrun")
+    "normalisation strips uid suffixes only", "DESIGN.md §3 and §11.2 C20", "artifacts+symrun")
 
 ENGINES = [
     ("report", "lib/report.py", "evidence/violation/known-finding plumbing and kill-able worker pool", "all"),
